@@ -915,6 +915,39 @@ def show(t: Any, depth: int = 0) -> str:
     return "(" + " ".join(show(x, d) if isinstance(x, tuple) else str(x) for x in t) + ")"
 
 
+def inline_calls(pkg: Package, t: Term, depth: int = 2) -> Term:
+    """Replace calls of loop-free, single-return package functions by their return term with the arguments substituted
+    (used to look through small vectorised helpers).  Calls that do not qualify are left in place."""
+    if depth <= 0:
+        return t
+
+    def fn(x):
+        if x[0] == "call" and isinstance(x[1], str) and x[1] in pkg.functions:
+            fi = pkg.functions[x[1]]
+            if fi.cls is not None:
+                return None
+            try:
+                ci = interp(pkg, fi.qual)
+            except Exception:  # noqa
+                return None
+            if ci.loops or len(ci.returns) != 1 or any(e.kind == "store" for e in ci.events):
+                return None
+            params = fi.params
+            bind = {}
+            for k, a in enumerate(x[2]):
+                if k < len(params):
+                    bind[("sym", params[k])] = a
+            for k, v in x[3]:
+                if k in params:
+                    bind[("sym", k)] = v
+            if any(("sym", p) not in bind for p in params if p not in fi.defaults()):
+                return None
+            body = subst(ci.returns[0].data["value"], lambda y: bind.get(y))
+            return inline_calls(pkg, body, depth - 1)
+        return None
+    return subst(t, fn)
+
+
 _INTERP_CACHE: Dict[Tuple, Interp] = {}
 
 
